@@ -21,7 +21,7 @@ def syntax_gen(ctx, seed, ntrees, maxstmts, cfg, tag, module="Syntax", trees_cmd
     return gp, len(out)
 
 
-def family_gen(ctx, cfg_syntax, tag, scope=None):
+def family_gen(ctx, cfg_syntax, tag, scope=None, trees_only=False):
     """ShapeFam.tla: exhaustive families of abstract programs printed by TLC, then printed as text (with the static
     verdict and the expected name diagnostics) by the Syntax machine"""
     g = ctx.tlc("ShapeFam", "ShapeFam_%s.cfg" % (scope or ctx.tier), workers=1, label="ShapeFam.tla: exhaustive source-shape and name families", timeout=1800)
@@ -48,6 +48,8 @@ def family_gen(ctx, cfg_syntax, tag, scope=None):
                     varvals[d["name"]] = {"t": "none"}
             t.update(id=i, bal={"a": {"USD": 100}, "b": {"USD": 50}}, meta=meta, rawvars=rawvars, varvals=varvals)
             f.write(json.dumps(t) + "\n")
+    if trees_only:
+        return None, tp, len(trees)
     g = ctx.tlc("Syntax", cfg_syntax, env={"TREES": tp}, workers=8, label="Syntax prints the family (%s)" % tag, timeout=3600)
     if g["tlc_error"] or not g["finished"] or g["inv_violated"]:
         raise Infra("Syntax machine failed (%s): %s %s\n%s" % (tag, g["tlc_error"], g["inv_violated"], g["out"][-1500:]))
